@@ -970,6 +970,10 @@ def shim(real, conv, also=()):
         def __call__(cls, *a, **k):
             return conv(*a, **k)
 
+        def __getattr__(cls, name):
+            # unbound methods / class attributes of the real type (str.lower, int.from_bytes, ...)
+            return getattr(real, name)
+
         def __eq__(cls, o):
             return o is cls or o is real
 
